@@ -11,3 +11,10 @@ pub use builder::Builder;
 pub use error::Error;
 pub(crate) use reconcile::reconcile;
 pub(crate) use join_pool::JoinPool;
+
+// Verification hooks, compiled only with `--cfg purr_verif`.
+#[cfg(purr_verif)]
+pub mod verif {
+    pub use super::join_pool::JoinPool;
+    pub use super::reconcile::reconcile;
+}
